@@ -498,19 +498,17 @@ def gen_lazy_mprog(rng, nops):
 
 def _run_m(prog):
     import signal
+    from .c06 import HistoryTimeout
     torch.set_num_threads(1)
 
-    class _Timeout(Exception):
-        pass
-
     def _alarm(*_a):
-        raise _Timeout()
+        raise HistoryTimeout()
     old = signal.signal(signal.SIGALRM, _alarm)
     signal.alarm(600)
     try:
         line, impl = MRunner(prog).run()
         return {"prog": prog, "line": line, "impl": impl}
-    except _Timeout:
+    except HistoryTimeout:
         HOOK.on = False
         return {"prog": prog, "timeout": True}
     except Exception:  # noqa: BLE001
